@@ -1,6 +1,7 @@
 import Compass.Drv.Proto
 import Compass.Drv.JsonProto
 import Compass.Model.MapMatch
+import Compass.Model.MapMatchIO
 
 namespace Compass.Drv.C16
 open Compass Compass.Proto Compass.MapMatch
@@ -45,9 +46,125 @@ def outcomeOut (o : Outcome) : String :=
   | none => "ok " ++ JsonProto.enc o.query
   | some e => "err " ++ errOut e ++ " " ++ JsonProto.enc o.query
 
+/-- `x as f32` (round to nearest even), read back as a double, as bits -/
+def f32Out (bits : Nat) : String := floatOut (Float.ofBits bits.toUInt64).toFloat32.toFloat
+
+def fieldP : P Field := do
+  let t ← next
+  match [Field.originVertex, .destinationVertex, .originEdge, .destinationEdge].find? (fun f => f.name == t) with
+  | some f => pure f
+  | none => failure
+
+def exceptOut (f : β → String) : Except Err β → String
+  | .ok b => "ok " ++ f b
+  | .error e => "err " ++ errOut e
+
+def cfgErrOut : CfgErr → String
+  | .missingField => "missingfield"
+  | .wrongType => "wrongtype"
+  | .fileNotFound => "filenotfound"
+  | .serde => "serde"
+  | .io => "io"
+  | .userConfig => "userconfig"
+  | .plugin => "plugin"
+  | .frontier => "frontier"
+
+def tolOfBits (t : Option (Nat × DistanceUnit)) : Option (Float × DistanceUnit) :=
+  t.map fun (b, u) => (Float.ofBits b.toUInt64, u)
+
+/-- `InputJsonExtensions`, one function per case -/
+def extCase : P String := do
+  let op ← next
+  match op with
+  | "ocoord" => do
+    let q ← JsonProto.json
+    pure (exceptOut (fun (x, y) => f32Out x ++ " " ++ f32Out y) (originCoordinateBits q))
+  | "dcoord" => do
+    let q ← JsonProto.json
+    pure (exceptOut (fun o => match o with | none => "n" | some (x, y) => "s " ++ f32Out x ++ " " ++ f32Out y)
+      (destinationCoordinateBits q))
+  | "add" => do
+    let f ← fieldP
+    let id ← nat
+    let q ← JsonProto.json
+    match addField q f id with
+    | .ok q' => pure ("ok " ++ JsonProto.enc q')
+    | .error e => pure ("err " ++ errOut e ++ " " ++ JsonProto.enc q)
+  | "getv" => do let q ← JsonProto.json; pure (exceptOut toString (getOriginVertex q))
+  | "gete" => do let q ← JsonProto.json; pure (exceptOut toString (getOriginEdge q))
+  | "getdv" => do
+    let q ← JsonProto.json
+    pure (exceptOut (fun o => match o with | none => "n" | some n => "s " ++ toString n) (getDestinationVertex q))
+  | "getde" => do
+    let q ← JsonProto.json
+    pure (exceptOut (fun o => match o with | none => "n" | some n => "s " ++ toString n) (getDestinationEdge q))
+  | "grid" => do
+    let q ← JsonProto.json
+    pure (match getGridSearch q with | none => "n" | some g => "s " ++ JsonProto.enc g)
+  | "getw" => do
+    let q ← JsonProto.json
+    pure (exceptOut (fun o => match o with | none => "n" | some b => "s " ++ toString b) (getQueryWeightEstimate q))
+  | "addw" => do
+    let b ← nat
+    let lex ← JsonProto.str
+    let q ← JsonProto.json
+    match addQueryWeightEstimate q lex b with
+    | .ok q' => pure ("ok " ++ JsonProto.enc q')
+    | .error e => pure ("err " ++ errOut e ++ " " ++ JsonProto.enc q)
+  | _ => failure
+
+/-- the builders; a successful build is probed with one query -/
+def builderCase : P String := do
+  let which ← next
+  match which with
+  | "v" => do
+    let cfg ← JsonProto.json
+    let ex ← bool
+    let parses ← bool
+    let q ← JsonProto.json
+    let oc ← listOf vcandP
+    match vertexBuilder cfg ex parses with
+    | .error e => pure ("err " ++ cfgErrOut e)
+    | .ok t => pure ("ok " ++ outcomeOut (vertexProcess (tolOfBits t) q oc []))
+  | "e" => do
+    let cfg ← JsonProto.json
+    let rc ← optOf nat
+    let vr ← bool
+    let geo ← optOf nat
+    let emptyLs ← bool
+    let q ← JsonProto.json
+    let oc ← tableP ecandP
+    match edgeBuilder cfg ⟨rc, vr, geo, emptyLs⟩ with
+    | .error e => pure ("err " ++ cfgErrOut e)
+    | .ok pl => pure ("ok " ++ outcomeOut (edgeProcess (tolOfBits pl.tolerance) [] pl.hasLookup q oc []))
+  | _ => failure
+
+/-- a double that may be NaN (`fbits` prints every NaN as `nan`) -/
+def floatN : P Float := do
+  let t ← next
+  if t == "nan" then pure (0.0 / 0.0)
+  else match floatOfTok t with
+    | some x => pure x
+    | none => failure
+
+def haversineCase : P String := do
+  let sx ← floatN; let sy ← floatN; let dx ← floatN; let dy ← floatN
+  let value ← optOf float
+  let u ← next
+  match DistanceUnit.ofName? u with
+  | none => failure
+  | some u =>
+    -- the trigonometric value is an input; when the real function refused, any value will do
+    let v := value.getD 0.0
+    let o := fun (x : Option Float) => match x with | none => "n" | some d => "s " ++ floatOut d
+    pure ("m " ++ o (coordDistanceMeters sx sy dx dy v) ++ " u " ++ o (coordDistance sx sy dx dy v u))
+
 def case : P String := do
   let kind ← next
   match kind with
+  | "x" => extCase
+  | "b" => builderCase
+  | "h" => haversineCase
   | "v" => do
     let tol ← tolP
     let q ← JsonProto.json
